@@ -14,7 +14,7 @@ enough for what it decides.
 """
 from .facts import AnalysisIncomplete, strip, walk
 
-FORBIDDEN = {"GotoStmt", "SwitchStmt", "CXXTryStmt", "DoStmt", "LabelStmt", "IndirectGotoStmt", "CoroutineBodyStmt",
+FORBIDDEN = {"GotoStmt", "SwitchStmt", "CXXTryStmt", "LabelStmt", "IndirectGotoStmt", "CoroutineBodyStmt",
              "SEHTryStmt", "GCCAsmStmt", "MSAsmStmt"}
 
 
@@ -102,6 +102,8 @@ def _paths(s, unroll):
         return res
     if k in ("WhileStmt", "ForStmt", "CXXForRangeStmt"):
         return _loop(s, unroll)
+    if k == "DoStmt":
+        return _do_loop(s, unroll)
     if k == "ReturnStmt":
         return [([("return", s)], "return")]
     if k == "BreakStmt":
@@ -161,6 +163,34 @@ def _loop(s, unroll):
         prefixes = nxt
         if len(prefixes) + len(results) > 200000:
             raise AnalysisIncomplete("path explosion in loop")
+    return results
+
+
+def _do_loop(s, unroll):
+    """do { body } while (cond): the body runs once before the first test; at most `unroll` + 1 iterations."""
+    cond = s.get("cond")
+    body = _paths(s.get("body"), unroll)
+    exits = cond_atoms(cond, False)
+    enters = cond_atoms(cond, True)
+    results = []
+    prefixes = [[("enter", s)]]
+    for it in range(unroll + 1):
+        nxt = []
+        for p in prefixes:
+            for ev, t in body:
+                if t in ("fall", "continue"):
+                    for alt in exits:
+                        results.append((p + ev + alt + [("leave", s)], "fall"))
+                    for alt in enters:
+                        nxt.append(p + ev + alt)
+                elif t == "break":
+                    results.append((p + ev + [("leave", s)], "fall"))
+                else:
+                    results.append((p + ev, t))
+        prefixes = nxt
+    if not exits:
+        for p in prefixes:
+            results.append((p + [("again", s)], "fall"))
     return results
 
 
